@@ -338,6 +338,16 @@ def cache_body_rules(R, prefix, wrapper_fi, cache_expr_pred, what):
             "second gets (and keeps) the first one's value" % (what, q.src((badr or soft)[0].ast)[:60] if (badr or soft) else ""))
     lookups = [n for n in cfg.nodes if n.kind == "stmt" and isinstance(n.ast, ast.Return) and isinstance(n.ast.value, ast.Subscript)
                and cache_expr_pred(q.src(n.ast.value.value))]
+    # single-exit form: `v = cache[k]` whose value reaches `return v` unchanged on every path
+    for n in cfg.nodes:
+        if n.kind == "stmt" and isinstance(n.ast, ast.Assign) and len(n.ast.targets) == 1 and isinstance(n.ast.targets[0], ast.Name) \
+                and isinstance(n.ast.value, ast.Subscript) and cache_expr_pred(q.src(n.ast.value.value)):
+            v_ = n.ast.targets[0].id
+            rets_v = [x for x in cfg.nodes if x.kind == "stmt" and isinstance(x.ast, ast.Return) and isinstance(x.ast.value, ast.Name) and x.ast.value.id == v_]
+            restores = [x for x in cfg.nodes if x is not n and x.kind == "stmt" and isinstance(x.ast, (ast.Assign, ast.AugAssign)) and v_ in q.names_stored(x.ast)]
+            succ_ = [e.dst for e in cfg.out_edges(n.id, N) if e.label != "exc"]
+            if rets_v and cfg.find_path(succ_, [cfg.exit], N, cut_nodes=rets_v) is None and (not restores or cfg.find_path(succ_, restores, N, cut_nodes=rets_v) is None):
+                lookups.append(n)
     R.check(bool(lookups), prefix + ".LOOKUP-FIRST", wrapper_fi.qualname + ":lookup", site,
             "a hit returns the stored entry directly", "%s no longer returns the stored entry on a hit" % what)
     p = cfg.find_path([cfg.entry], [y], N, cut_nodes=lookups)
